@@ -278,6 +278,72 @@ def norm2 (sqrt : α → α) : MVec α → α
 
 end Ops
 
+/-! #### flat ↔ composed copies: `DenseVector::copy(VT_)`, `copy_inv(VT_)`, `convert(VT_)`
+(= `set_vec` / `set_vec_inv` of the vector classes, with pointer offsets in SCALARS) -/
+
+/-- `size<Perspective::pod>()` -/
+def podSize : MVec α → Nat
+  | dense d => d.length
+  | blocked _ d => d.length
+  | tupleOne f => podSize f
+  | tupleCons f r => podSize f + podSize r
+  | powerOne f => podSize f
+  | powerCons f r => podSize f + podSize r
+
+/-- `MemoryPool::copy(pval_set + off, elements, n)` into the flat array -/
+def writeAt (buf : List α) (off : Nat) (d : List α) : List α := buf.take off ++ d ++ buf.drop (off + d.length)
+
+/-- `MemoryPool::copy(elements, pval_set + off, n)` out of the flat array -/
+def readAt (buf : List α) (off n : Nat) : List α := (buf.drop off).take n
+
+/-- `set_vec(pval_set + off)`: `first().set_vec(p); rest().set_vec(p + first().size<pod>())` -/
+def setVec : MVec α → Nat → List α → List α
+  | dense d, off, buf => writeAt buf off d
+  | blocked _ d, off, buf => writeAt buf off d
+  | tupleOne f, off, buf => setVec f off buf
+  | tupleCons f r, off, buf => setVec r (off + podSize f) (setVec f off buf)
+  | powerOne f, off, buf => setVec f off buf
+  | powerCons f r, off, buf => setVec r (off + podSize f) (setVec f off buf)
+
+/-- `set_vec_inv(pval_set + off)` -/
+def setVecInv : MVec α → Nat → List α → MVec α
+  | dense d, off, buf => dense (readAt buf off d.length)
+  | blocked b d, off, buf => blocked b (readAt buf off d.length)
+  | tupleOne f, off, buf => tupleOne (setVecInv f off buf)
+  | tupleCons f r, off, buf => tupleCons (setVecInv f off buf) (setVecInv r (off + podSize f) buf)
+  | powerOne f, off, buf => powerOne (setVecInv f off buf)
+  | powerCons f r, off, buf => powerCons (setVecInv f off buf) (setVecInv r (off + podSize f) buf)
+
+/-- offsets at which the leaves are read / written (in flattening order) -/
+def leafOffsets : MVec α → Nat → List Nat
+  | dense _, off => [off]
+  | blocked _ _, off => [off]
+  | tupleOne f, off => leafOffsets f off
+  | tupleCons f r, off => leafOffsets f off ++ leafOffsets r (off + podSize f)
+  | powerOne f, off => leafOffsets f off
+  | powerCons f r, off => leafOffsets f off ++ leafOffsets r (off + podSize f)
+
+/-- pod sizes of the leaves (in flattening order) -/
+def leafSizes : MVec α → List Nat
+  | dense d => [d.length]
+  | blocked _ d => [d.length]
+  | tupleOne f => leafSizes f
+  | tupleCons f r => leafSizes f ++ leafSizes r
+  | powerOne f => leafSizes f
+  | powerCons f r => leafSizes f ++ leafSizes r
+
+/-- `off, off + n₀, off + n₀ + n₁, …` (one entry per size) -/
+def prefixOffsets : Nat → List Nat → List Nat
+  | _, [] => []
+  | off, n :: t => off :: prefixOffsets (off + n) t
+
+/-- `flat.copy(v)`: `v.set_vec(flat.elements())` -/
+def flatCopy (v : MVec α) (flat : List α) : List α := setVec v 0 flat
+/-- `flat.copy_inv(v)`: `v.set_vec_inv(flat.elements())` -/
+def flatCopyInv (v : MVec α) (flat : List α) : MVec α := setVecInv v 0 flat
+/-- `DenseVector::convert(v)`: a fresh vector of `size<pod>()` scalars, then `set_vec` -/
+def flatConvert (fill : α) (v : MVec α) : List α := setVec v 0 (List.replicate (podSize v) fill)
+
 /-- `Math::max(first().max_abs_element(), rest().max_abs_element())` etc.; `none` = a leaf is empty -/
 def extreme (leaf : List α → Option α) (comb : α → α → α) : MVec α → Option α
   | dense d => leaf d
